@@ -230,7 +230,7 @@ func RunProperty(cfg Config) int {
 				if strings.HasPrefix(o.Status, "panic") && strings.HasPrefix(cx.id, "nopanic") {
 					repro = true
 				}
-				if o.Race && cfg.Prop == "C12" && (strings.Contains(cx.id, "package-level-variable") || strings.Contains(cx.id, "shared-through-the-configuration")) {
+				if o.Race && cfg.Prop == "C12" && (strings.Contains(cx.id, "package-level-variable") || strings.Contains(cx.id, "shared-through-the-configuration") || strings.Contains(cx.id, "handing-it-back-to-a-pool")) {
 					repro = true // the native run of this record raced under the race detector
 				}
 			}
